@@ -14,6 +14,10 @@ import (
 	"path"
 )
 
+// dirListTrailer is the size of what follows the entry list in a READDIR or
+// READDIRPLUS result: the "no more entries" word and the eof word.
+const dirListTrailer = 8
+
 // handleReaddir handles NFSPROC3_READDIR - read directory entries
 func (h *NFSProcedureHandler) handleReaddir(body io.Reader, reply *RPCReply, authCtx *AuthContext) (*RPCReply, error) {
 	handleVal, err := xdrDecodeFileHandle(body)
@@ -79,21 +83,16 @@ func (h *NFSProcedureHandler) handleReaddir(body io.Reader, reply *RPCReply, aut
 
 	buf.Write(cookieVerf[:])
 
+	// count bounds the encoded READDIR3resok (everything after the status
+	// word), including the "no more entries" and eof words that follow the
+	// list: a further entry is added only if the result still fits with it.
+	// The first entry is always returned so that every call makes progress.
 	entryCount := 0
-	maxReplySize := int(count) - 100
-	if maxReplySize < 128 {
-		maxReplySize = 128
-	}
 	reachedLimit := false
 
 	for i, entry := range entries {
 		if uint64(i) < cookie {
 			continue
-		}
-
-		if buf.Len() >= maxReplySize {
-			reachedLimit = true
-			break
 		}
 
 		// Skip entries with nil attrs
@@ -105,6 +104,19 @@ func (h *NFSProcedureHandler) handleReaddir(body io.Reader, reply *RPCReply, aut
 		fileId := entry.attrs.FileId
 		entry.mu.RUnlock()
 
+		// M1: Use path.Base() for name extraction
+		name := path.Base(entry.path)
+		if entry.path == "/" {
+			name = "/"
+		}
+
+		// value-follows + fileid + name (length word, bytes, padding) + cookie
+		entrySize := 4 + 8 + 4 + (len(name)+3)/4*4 + 8
+		if entryCount > 0 && int64(buf.Len()-4+entrySize+dirListTrailer) > int64(count) {
+			reachedLimit = true
+			break
+		}
+
 		xdrEncodeUint32(&buf, 1)
 
 		// R4: Copy fileId under RLock
@@ -112,11 +124,6 @@ func (h *NFSProcedureHandler) handleReaddir(body io.Reader, reply *RPCReply, aut
 			return nfsErrorWithPostOp(reply, NFSERR_IO), nil
 		}
 
-		// M1: Use path.Base() for name extraction
-		name := path.Base(entry.path)
-		if entry.path == "/" {
-			name = "/"
-		}
 		if err := xdrEncodeString(&buf, name); err != nil {
 			return nfsErrorWithPostOp(reply, NFSERR_IO), nil
 		}
@@ -209,21 +216,16 @@ func (h *NFSProcedureHandler) handleReaddirplus(body io.Reader, reply *RPCReply,
 
 	buf.Write(cookieVerf[:])
 
+	// maxcount bounds the encoded READDIRPLUS3resok (everything after the
+	// status word), including the two words that follow the list: a further
+	// entry is added only if the result still fits with it. The first entry
+	// is always returned so that every call makes progress.
 	entryCount := 0
 	reachedLimit := false
-	maxReplySize := int(maxCount) - 200
-	if maxReplySize < 256 {
-		maxReplySize = 256
-	}
 
 	for i, entry := range entries {
 		if uint64(i) < cookie {
 			continue
-		}
-
-		if buf.Len() >= maxReplySize && entryCount > 0 {
-			reachedLimit = true
-			break
 		}
 
 		// Skip entries with nil attrs
@@ -235,6 +237,19 @@ func (h *NFSProcedureHandler) handleReaddirplus(body io.Reader, reply *RPCReply,
 		entryAttrsCopy := *entry.attrs
 		entry.mu.RUnlock()
 
+		// M1: Use path.Base() for name extraction
+		name := path.Base(entry.path)
+		if entry.path == "/" {
+			name = "/"
+		}
+
+		// value-follows + fileid + name + cookie + post_op_attr (4+84) + post_op_fh3 (4+4+8)
+		entrySize := 4 + 8 + 4 + (len(name)+3)/4*4 + 8 + 88 + 16
+		if entryCount > 0 && int64(buf.Len()-4+entrySize+dirListTrailer) > int64(maxCount) {
+			reachedLimit = true
+			break
+		}
+
 		xdrEncodeUint32(&buf, 1)
 
 		entryCookie := uint64(i + 1)
@@ -243,11 +258,6 @@ func (h *NFSProcedureHandler) handleReaddirplus(body io.Reader, reply *RPCReply,
 			return nfsErrorWithPostOp(reply, NFSERR_IO), nil
 		}
 
-		// M1: Use path.Base() for name extraction
-		name := path.Base(entry.path)
-		if entry.path == "/" {
-			name = "/"
-		}
 		if err := xdrEncodeString(&buf, name); err != nil {
 			return nfsErrorWithPostOp(reply, NFSERR_IO), nil
 		}
